@@ -102,8 +102,14 @@ pub fn program(rng: &mut Rng, profile: Profile) -> Generated {
         for r in 0..nregs {
             let w = if rng.chance(1, 12) { 0 } else { *rng.pick(&WIDTHS[1..]) };
             let rname = format!("r{}", r);
-            let dflt = if rng.chance(1, 2) { GExpr::Const(interesting_value(rng, W::Bits(w)), W::Unl, 1) }
-                       else { let mut sc = Scope::new(vec![]); gen(rng, &mut sc, W::Bits(w), 1) };
+            // defaults: a fitting constant, an unsized constant that does NOT fit the register (it must be truncated),
+            // a negated constant, or a constant expression of the register's width
+            let dflt = match rng.below(5) {
+                0 | 1 => GExpr::Const(interesting_value(rng, W::Bits(w)), W::Unl, 1),
+                2 => GExpr::Const(interesting_value(rng, W::Unl), W::Unl, rng.below(3) as u8),
+                3 => GExpr::Un("-", Box::new(GExpr::Const(rng.range(1, 300) as u128, W::Unl, 0))),
+                _ => { let mut sc = Scope::new(vec![]); gen(rng, &mut sc, W::Bits(w), 1) }
+            };
             decl.push((rname.clone(), w, dflt));
             regs.push((rname, w));
         }
@@ -401,6 +407,17 @@ pub fn inject_loop(rng: &mut Rng, g: &mut Generated) -> (&'static str, String) {
                         *s = Stmt::Raw(format!("{} = ({}) ^ {};", inp, old, out));
                         name = inp.to_string();
                         break;
+                    }
+                }
+            }
+            // the loop through the data read port also counts when the port is switched off by a constant
+            if inp == "mem_addr" && name != "-" && rng.chance(1, 2) {
+                for s in g.stmts.iter_mut() {
+                    if let Stmt::Assign(ns, _) = s {
+                        if ns.len() == 1 && ns[0] == "mem_readbit" {
+                            *s = Stmt::Raw(String::from(*rng.pick(&["mem_readbit = 0;", "mem_readbit = false;", "mem_readbit = 1 - 1;"])));
+                            return ("through-disabled-component", name);
+                        }
                     }
                 }
             }
